@@ -101,6 +101,24 @@ def proto_to_ty(tp: onnx.TypeProto, keep_param=lambda s: True):
     return {"other": tp.WhichOneof("value")}
 
 
+def proto_json(tp: onnx.TypeProto):
+    """A TypeProto field by field, presence included (the model's `PTy`): rank 0 = shape present
+    without dims, unknown rank = no shape; a dim carries a value, a parameter name, or nothing.
+    None for what the model's types cannot express (map, sparse, empty)."""
+    if tp.HasField("tensor_type"):
+        tt = tp.tensor_type
+        shape = None
+        if tt.HasField("shape"):
+            shape = [{"v": int(d.dim_value)} if d.HasField("dim_value") else {"p": str(d.dim_param)} if d.HasField("dim_param") else {}
+                     for d in tt.shape.dim]
+        return {"elem": int(tt.elem_type), "shape": shape}
+    for k, f in (("seq", "sequence_type"), ("opt", "optional_type")):
+        if tp.HasField(f):
+            inner = proto_json(getattr(tp, f).elem_type)
+            return None if inner is None else {k: inner}
+    return None
+
+
 def has_other(ty) -> bool:
     """the type mentions something spox's type system (and the model's `Ty`) cannot express (map, sparse)"""
     if not isinstance(ty, dict):
@@ -1580,6 +1598,26 @@ def model_request(op: Op, call, sp: dict) -> Optional[dict]:
                 req["infer"] = inf
         else:
             req["infer"] = "reject"
+    # Type._to_onnx on the operand types, Type._from_onnx on the protos ONNX answered with (model: toProto / fromProto)
+    try:
+        from spox._type_system import Type as _SType
+
+        tys = []
+        for v in call["vars"]:
+            if v["ty"] is not None and not has_other(v["ty"]) and v["ty"] not in tys:
+                tys.append(v["ty"])
+        real_to = [proto_json(spox_type(t)._to_onnx()) for t in tys]
+        protos, real_from = [], []
+        if sp["captured"] and "result" in sp["captured"][0]:
+            for o in sp["captured"][0]["result"].graph.output:
+                pj = proto_json(o.type)
+                if pj is not None:
+                    protos.append(pj)
+                    real_from.append(from_spox_type(_SType._from_onnx(o.type)))
+        req["to_proto"], req["from_proto"] = tys, protos
+        sp["proto_obs"] = {"to": real_to, "from": real_from}
+    except Exception as e:  # noqa: BLE001
+        sp["proto_obs_error"] = f"{type(e).__name__}: {e}"[:200]
     for k in ("loop", "compress"):
         if k in sp["node"] and cls is not None and is_patched(cls) and not any(has_other(t) for v in sp["node"][k].values() if isinstance(v, list) for t in v):
             req[k] = sp["node"][k]
